@@ -143,6 +143,13 @@ func runC18(r *kit.Run) {
 		}
 		c18History(r, i, r.Rng("conc", i))
 	}
+	nfu := int64(r.Scale(8, 200))
+	for i := int64(0); i < nfu && !r.Stopped(); i++ {
+		if !r.Mine(i) {
+			continue
+		}
+		c18FirstUse(r, i, r.Rng("firstuse", i))
+	}
 	nsa := int64(r.Scale(24, 600))
 	for i := int64(0); i < nsa && !r.Stopped(); i++ {
 		if !r.Mine(i) {
@@ -150,6 +157,73 @@ func runC18(r *kit.Run) {
 		}
 		c18SortUnderAdd(r, i, r.Rng("sortadd", i))
 	}
+}
+
+// c18FirstUse: the very first calls on a synchronized, otherwise
+// untouched set come from several goroutines at once (whatever is set up
+// lazily is set up by whichever call comes first). Each goroutine adds
+// its own value: afterwards all of them are members.
+func c18FirstUse(r *kit.Run, idx int64, rng *rand.Rand) {
+	G := 2 + rng.IntN(3)
+	rounds := 3000
+	procs := []int{2, 4, 16}[rng.IntN(3)]
+	desc := map[string]any{"goroutines": G, "rounds": rounds, "gomaxprocs": procs}
+	r.Eval()
+	r.Current(idx, fmt.Sprintf("C18 first-use %v", desc))
+	bad := ""
+	kit.WithProcs(procs, func() {
+		sets := make([]*dt.Set[int], rounds)
+		for k := range sets {
+			sets[k] = &dt.Set[int]{}
+			sets[k].Synchronize()
+		}
+		var arrived = make([]atomic.Int32, rounds)
+		var wg sync.WaitGroup
+		var fatal atomic.Value
+		for g := 0; g < G; g++ {
+			wg.Add(1)
+			go func(g int) {
+				defer wg.Done()
+				defer func() {
+					if p := recover(); p != nil {
+						fatal.Store(fmt.Sprint(p))
+					}
+				}()
+				for k := 0; k < rounds; k++ {
+					arrived[k].Add(1)
+					for spin := 0; spin < 2000 && int(arrived[k].Load()) < G; spin++ {
+						if spin%64 == 63 {
+							runtime.Gosched()
+						}
+					}
+					sets[k].AddCheck(g)
+				}
+			}(g)
+		}
+		wg.Wait()
+		if p := fatal.Load(); p != nil {
+			bad = "panic: " + p.(string)
+			return
+		}
+		for k, s := range sets {
+			if s.Len() != G {
+				bad = fmt.Sprintf("round %d: %d goroutines each added their own value as their first call on a fresh synchronized set, Len()=%d", k, G, s.Len())
+				return
+			}
+			for g := 0; g < G; g++ {
+				if !s.Check(g) {
+					bad = fmt.Sprintf("round %d: value %d was added (AddCheck returned) and is not a member", k, g)
+					return
+				}
+			}
+		}
+	})
+	if bad != "" {
+		r.Violation("C18/Set.first-use/lost-add", idx, desc, bad, nil)
+		return
+	}
+	r.Distinct(fmt.Sprintf("firstuse|g=%d|p=%d", G, procs))
+	r.Count("first_use_rounds", int64(rounds))
 }
 
 // c18SortUnderAdd: a large synchronized, ordered set is sorted again and
